@@ -8,3 +8,24 @@ package ir
 //@   noframe
 //@   protocol-only C17
 //@   decreases [C17.term] MaxLoopAnalysisDepth - depth
+
+// ---- C03 / C02: the normalisations are gated on side conditions under which they preserve meaning
+//@ pred typeOfV(v ssa.Value) = purecall("invoke:golang.org/x/tools/go/ssa.Value.Type", v)
+//@ pred underT(t types.Type) = purecall("invoke:go/types.Type.Underlying", t)
+//@ pred isBasicT(t types.Type) = hasType(underT(t), "*types.Basic")
+//@ pred infoT(t types.Type) = purecall("(*go/types.Basic).Info", dyn(underT(t), "*types.Basic"))
+//@ pred numericT(t types.Type) = isBasicT(t) && (bitand(infoT(t), types.IsInteger) != 0 || bitand(infoT(t), types.IsFloat) != 0 || bitand(infoT(t), types.IsComplex) != 0)
+
+// Operand reordering happens only for operators that commute on the operand type (string + does not).
+//@ func isCommutative
+//@   ensures [C03.comm] result ==> instr.Op == token.ADD || instr.Op == token.MUL || instr.Op == token.EQL || instr.Op == token.NEQ || instr.Op == token.AND || instr.Op == token.OR || instr.Op == token.XOR
+//@   ensures [C03.comm] result && instr.Op == token.ADD ==> numericT(typeOfV(instr.X))
+//@   ensures [C02.comm] instr.Op == token.MUL || instr.Op == token.AND || instr.Op == token.OR || instr.Op == token.XOR || instr.Op == token.EQL || instr.Op == token.NEQ ==> result
+//@   ensures [C02.comm] instr.Op == token.ADD && isBasicT(typeOfV(instr.X)) && bitand(infoT(typeOfV(instr.X)), types.IsInteger) != 0 ==> result
+
+// Only side-effect-free builtins are hoisted out of loops, and len/cap never on maps or channels.
+//@ pred builtinName(call *ssa.Call) = purecall("(*golang.org/x/tools/go/ssa.Builtin).Name", dyn(call.Call.Value, "*ssa.Builtin"))
+//@ func (*Canonicalizer).isPureBuiltin
+//@   ensures [C03.hoist] result ==> hasType(call.Call.Value, "*ssa.Builtin")
+//@   ensures [C03.hoist] result ==> builtinName(call) == "len" || builtinName(call) == "cap" || builtinName(call) == "complex" || builtinName(call) == "real" || builtinName(call) == "imag" || builtinName(call) == "min" || builtinName(call) == "max"
+//@   ensures [C03.hoist] result && (builtinName(call) == "len" || builtinName(call) == "cap") && len(call.Call.Args) > 0 ==> !hasType(underT(typeOfV(call.Call.Args[0])), "*types.Map") && !hasType(underT(typeOfV(call.Call.Args[0])), "*types.Chan")
